@@ -15,7 +15,7 @@ fn run_line(t: &[&str]) -> String {
         // a completed flush: flush op returned true, consumed everything offered, nothing pending
         if o.kind == 'c' && o.op == 1 && o.ret && o.consumed == o.offered && !o.more && o.panic.is_none() {
             flush_n += 1;
-            let (dec, res) = decode_prefix(em);
+            let (dec, res) = decode_prefix_cap(em, cur + 4096);
             if dec == data[..cur] && res == 2 {
                 flush_ok += 1;
             } else if first_bad.is_none() {
